@@ -56,6 +56,7 @@ def theorems(prop):
         "Iauthd.Properties.C19_stock_comparators",
         "Iauthd.Properties.C19_map_laws",
         "Iauthd.Properties.C19_lower_bound",
+        "Iauthd.Properties.C19_iteration",
         "Iauthd.Set.splay_inorder",
         "Iauthd.Set.splay_root_spec",
         "Iauthd.Set.inv_step",
